@@ -93,13 +93,15 @@ class Ctx:
         Listed under `open:` in KNOWN_FINDINGS.txt -> KNOWN-FINDING line; anything else -> VIOLATION.
         """
         self.counters["discrepancies"] += 1
+        self.obs.setdefault("discrepancy_keys", {})
+        self.obs["discrepancy_keys"][key] = self.obs["discrepancy_keys"].get(key, 0) + 1
         what = _SCRATCH.sub("<proj>", what)
         if key in self.open_known:
             self.counters["known:" + key] += 1
             self.known_seen.setdefault(key, what)
             return
         self._viol_keys[key] += 1
-        if self._viol_keys[key] > 2 or len(self._viol_keys) > 40:
+        if self._viol_keys[key] > 2 or len(self._viol_keys) > 60:
             self.counters["violations_not_printed"] += 1
             self.violations.append((key, what, None))
             return
